@@ -341,6 +341,25 @@ def rule_release_first(repo, rule):
                            "can raise before the guard is released", "exit/order")
         else:
             rule.ok(ex.loc(cfg.stmt[r]), ex.fq, "restore_guard dominates every statement that can raise")
+    # acquisition is the last fallible step of enter(): if anything after add_guard raised, the caller would never get a
+    # context object to exit() and the guard would stay installed
+    en = bc.methods.get("enter")
+    if en is not None:
+        cfg_e = CFG(en.node)
+        acq = [n for n in range(cfg_e.n) if cfg_e.stmt[n] is not None and cfg_e.kind[n] == "stmt" and any(
+            callee_name(c) == "add_guard" for c in calls_in(cfg_e.stmt[n]))]
+        if acq:
+            a = acq[0]
+            after = cfg_e.reach_avoiding(a, set(), first_labels=("next", "true", "false"))
+            bad = [n for n in sorted(after) if n != a and cfg_e.stmt[n] is not None and cfg_e.kind[n] in ("stmt", "test", "loop")
+                   and fine_may_raise(cfg_e.stmt[n], cfg_e.kind[n])]
+            if bad:
+                rule.violation(en.loc(cfg_e.stmt[bad[0]]), en.fq, "%s ... then %s" % (norm(cfg_e.stmt[a]), cfg_e.describe(bad[0])),
+                               "a statement that can raise follows add_guard inside enter(): if it raises, the branch context is never "
+                               "registered, nobody calls exit(), and guard / error suppression / LinComb.ONE stay switched",
+                               "enter/acquire-last")
+            else:
+                rule.ok(en.loc(cfg_e.stmt[a]), en.fq, "add_guard is the last statement of enter() that can raise")
     # protocol order exit() before enter()
     for ci in repo.module("pysnark.branching").classes.values():
         for mn, fi in ci.methods.items():
@@ -506,5 +525,8 @@ def check(repo, rep, tier):
     rule_release_first(repo, r4)
     r5 = rep.rule("R-C08-5", "nesting is a conjunction; suppression only or-ed; ONE is the new guard", floor=3)
     rule_conjunction(repo, r5)
+    r7 = rep.rule("R-C08-7", "nothing computed from the guard (LinComb.ONE, constants) is kept beyond the region: emission is memoryless", floor=4)
+    from .memoryless import rule_memoryless
+    rule_memoryless(repo, r7)
     r6 = rep.rule("R-C08-6", "only add_guard/restore_guard/ignore_errors write guard state", floor=6)
     rule_census(repo, r6, include_clients=(tier == "thorough"))
